@@ -3,6 +3,7 @@ theorems restated about the definitions generated from the Rust source, through 
 `Properties/SrcTie/Gdt.lean` and `Properties/SrcTie/Recursive.lean`. -/
 import X86Model.Properties.SrcTie.Gdt
 import X86Model.Properties.SrcTie.Recursive
+import X86Model.Properties.C14
 import X86Model.Properties.C15
 import X86Model.Properties.C20
 
@@ -62,5 +63,24 @@ theorem C20_table_pages_of_source (sz page : BitVec 64) (r : BitVec 16) (hr : Bi
   refine ⟨⟨_, SrcTie.rec_p3_page_model cfg sz page r hr, C20.p3_page_indices _ _ hr'⟩,
     ⟨_, SrcTie.rec_p2_page_model cfg sz page r hr, C20.p2_page_indices _ _ hr'⟩,
     ⟨_, SrcTie.rec_p1_page_model cfg page r hr, C20.p1_page_indices _ _ hr'⟩⟩
+
+/-- **C14 for the translated source** (the selector an `append` returns): what the generated `dpl()` computes for a
+descriptor and the generated `SegmentSelector::new` makes of it and of a slot index below 2^13 decodes (SDM Figure
+3-6) to that index, TI = 0 (GDT) and RPL = the descriptor's DPL field - for user and system descriptors alike. -/
+theorem C14_selector_of_source (d : Descriptor) (i : Nat) :
+    ∃ l : BitVec 8, Src.Descriptor_dpl cfg (descTuple d) = .ok l ∧
+      ∃ sel, Src.SegmentSelector_new cfg (BitVec.ofNat 16 i) l = .ok sel ∧
+        decodeSel sel = ⟨BitVec.ofNat 13 i, false, (GdtProof.toSpec d).dpl⟩ := by
+  have hd : Src.Descriptor_dpl cfg (descTuple d) = (Descriptor.dpl d).map (·.setWidth 8) := by
+    cases d with
+    | user v => exact SrcTie.Descriptor_dpl_user cfg v
+    | system lo hi => exact SrcTie.Descriptor_dpl_system cfg lo hi
+  rw [C14.dpl_ok] at hd
+  refine ⟨_, hd, _, SrcTie.SegmentSelector_new cfg _ _, ?_⟩
+  have e : ((((GdtProof.toSpec d).dpl.setWidth 16).setWidth 8).setWidth 16) = ((GdtProof.toSpec d).dpl.setWidth 16) := by
+    generalize (GdtProof.toSpec d).dpl = x
+    bv_decide
+  rw [e]
+  exact C14.selector_decodes i _
 
 end X86.SrcModelDesc
